@@ -203,7 +203,7 @@ def c11_i2(ctx):
     yield from _site_instances("C11-I2", sites, ctx.prog)
 
 
-@rule("C11", "C11-I3", 3, "fresh transaction ids come from a single read-and-increment of a counter nobody else writes")
+@rule("C11", "C11-I3", 3, "fresh transaction ids come from a single read-and-increment of a counter nobody else writes", also=("C01",))
 def c11_i3(ctx):
     fns = [f for f in ctx.prog.by_norm.values() if f.crate == "cfdp_daemon" and (f.norm.startswith(DAEMON + "::") )]
     n = 0
